@@ -15,6 +15,7 @@
 from ..bounds import Engine, Ptr, Obj, Obligation, UNKNOWN, St, btype
 from ..lin import Lin, lin, ge, le, lt, gt, eq, entails, feasible, TooBig
 from ..facts import AnalysisBroken, children, walk, strip_casts, strip_all_casts, CALL_KINDS
+from ..rules import call_args
 
 CLS = 'celma::container::DynamicBitset'
 
@@ -510,6 +511,51 @@ def mutators(chk, prog, rule='R5'):
                              'the operation is no longer decided' % sorted(set(undecided))[:6])
     chk.samples.append({'R5_members_specified': n_spec, 'R5_undecided': sorted(set(undecided))})
     return n_spec
+
+
+def from_std_bitset(chk, prog, rule='R5'):
+    """the two member templates that take a std::bitset< N> (converting constructor, assignment) copy it element by
+    element: the bit vector is given exactly N elements, and a loop over idx = 0 .. N-1 stores other[ idx] into
+    mData[ idx] in EVERY iteration - an assignment that only sets the set bits leaves earlier bits of the target
+    standing"""
+    fs = [f for f in prog.functions if f.classq == CLS and f.body is not None and len(f.params) == 1 and
+          btype(f.params[0]['t'].rstrip('&').strip()).startswith('std::bitset<') and
+          (f.d.get('ctor') or f.short == 'operator=')]
+    chk.require(len(fs) >= 2, 'member templates taking a std::bitset instantiated: %d' % len(fs))
+    for f in fs:
+        src = f.params[0]['name']
+        tag = 'DynamicBitset( std::bitset)' if f.d.get('ctor') else 'operator=( std::bitset)'
+        loops = [l for l in f.walk() if l.get('k') == 'ForStmt']
+        ok, why = len(loops) == 1, 'copy loop not found'
+        if ok:
+            loop = loops[0]
+            stores = []
+            for x in walk(loop):
+                if x.get('k') == 'CXXOperatorCallExpr' and x.get('op') == '=' and call_args(x):
+                    lhs = strip_all_casts(call_args(x)[0])
+                    while lhs.get('k') in ('MaterializeTemporaryExpr', 'CXXBindTemporaryExpr') and children(lhs):
+                        lhs = strip_all_casts(children(lhs)[0])
+                    if lhs.get('k') == 'CXXOperatorCallExpr' and lhs.get('op') == '[]' and \
+                            any(y.get('k') == 'MemberExpr' and y['ref'].get('name') == 'mData' for y in walk(lhs)):
+                        stores.append((x, lhs, call_args(x)[1]))
+            if len(stores) != 1:
+                ok, why = False, 'the loop stores into mData[ ...] %d times' % len(stores)
+            else:
+                st, lhs, rhs = stores[0]
+                idx = {y['ref'].get('name') for y in walk(call_args(lhs)[1]) if y.get('k') == 'DeclRefExpr'}
+                reads = [y for y in walk(rhs) if (
+                    (y.get('k') == 'CXXOperatorCallExpr' and y.get('op') == '[]') or
+                    (y.get('k') == 'CXXMemberCallExpr' and (y.get('callee') or '').endswith('::test'))) and
+                    any(z.get('k') == 'DeclRefExpr' and z['ref'].get('name') == src for z in walk(y))]
+                ridx = {z['ref'].get('name') for y in reads for z in walk(call_args(y)[-1]) if z.get('k') == 'DeclRefExpr'}
+                from ..rules import loop_iteration_must_pass
+                off = loop_iteration_must_pass(f.cfg, loop, lambda n_: n_ is st)
+                if off:
+                    ok, why = False, 'an iteration can complete without storing the element (%s)' % '; '.join(off)
+                elif len(idx) != 1 or ridx != idx or len(reads) != 1:
+                    ok, why = False, 'mData[ %s] is not assigned other[ %s]' % (sorted(idx), sorted(ridx))
+        chk.check(ok, rule, f.name, 'every element 0 .. N-1 is assigned the corresponding bit of the std::bitset [%s]' % tag,
+                  f.loc(), '' if ok else why)
 
 
 # ====================================================================== iteration order (R6)
